@@ -28,8 +28,26 @@
    load_suites_from_directory                          | load_dir (fixed : bool = companion directory of a hidden module skipped,
                                                        |   i.e. fixes/F16-*.patch applied; false = the code before the fix)
    BaseSuite.is_empty                                  | is_empty
-   Not modelled: hooks, injected fixtures, properties and links (same mechanism as tags), dependencies, generated tests
-   (add_test_into_suite), class inheritance, import errors, metadata type checks; the disabled reason (bool only).
+   @lcc.tags(names...): md.tags.extend(names)          | t_tags / c_tags : the arguments of the (single) @lcc.tags decorator
+   @lcc.prop(k, v): md.properties[k] = v               | t_props / c_props : the @lcc.prop decorators of the symbol, listed top to bottom
+                                                       |   as in the source; they are APPLIED bottom-up (MODELLED: decorator evaluation):
+                                                       |   props_of_decorators = dict_set folded over the reversed list
+   @lcc.link(url, name=None): md.links.append(...)     | t_links / c_links : same convention; links_of_decorators = the reversed list
+   Python dict (str -> str): d[k] = v, d.update(e)     | pdict = association list in insertion order; dict_set (an existing key keeps its
+                                                       |   place, its value is replaced; a new key goes last), dict_update
+   _load_test: test.tags.extend(md.tags);              | expand_test : lt_tags, lt_props (dict_update of the empty dict), lt_links;
+     test.properties.update(md.properties);            |   every test produced by a parametrized symbol is copy.copy of the same Test,
+     test.links.extend(md.links); pull_node (copy.copy)|   so it carries the same tags / properties / links (the sharing of the list and
+                                                       |   dict OBJECTS between these copies is not modelled)
+   load_suite_from_class: suite.tags/properties/links  | class_meta
+   load_suite_from_module: SUITE.get("tags", []),      | mod_meta : s_tags; s_props = the entries of the "properties" dict literal in the
+     .get("properties", {}), map(_normalize_link,      |   order written (a repeated key of a literal behaves like dict_set: MODELLED);
+     .get("links", []))                                |   s_links : each entry is "url" (LStr) or ("url", name-or-None) (LPair);
+   _normalize_link                                     |   normalize_link
+   Suite(None, name, description) for a directory      | no_meta (no tag, no property, no link)
+   Not modelled: hooks, injected fixtures, dependencies, generated tests (add_test_into_suite), class inheritance, import
+   errors, metadata type checks (_check_test_tree_node_types: only well-typed metadata is considered); the disabled reason
+   (bool only).
    Strings are lists of code points.  No proofs in this file. *)
 From Coq Require Import List Arith Bool NArith.
 Import ListNotations.
@@ -80,17 +98,49 @@ Definition dec_of_nat (n : nat) : str := digits 25 (N.of_nat n) [].
 Definition or_str (o : option str) (d : str) : str :=
   match o with Some (c :: r) => c :: r | _ => d end.
 
+(* ---------------------------------------------------------------- metadata: tags, properties, links *)
+(* a Python dict with str keys and values: association list in insertion order, keys pairwise distinct *)
+Definition pdict := list (str * str).
+(* d[k] = v *)
+Fixpoint dict_set (k v : str) (d : pdict) : pdict :=
+  match d with
+  | [] => [(k, v)]
+  | (k', v') :: r => if str_eqb k k' then (k', v) :: r else (k', v') :: dict_set k v r
+  end.
+(* d.update(src) *)
+Definition dict_update (d src : pdict) : pdict := fold_left (fun acc kv => dict_set (fst kv) (snd kv) acc) src d.
+(* d.get(k) *)
+Fixpoint dict_get (k : str) (d : pdict) : option str :=
+  match d with [] => None | (k', v) :: r => if str_eqb k k' then Some v else dict_get k r end.
+
+(* (url, name or None) *)
+Definition link := (str * option str)%type.
+
+(* the decorators of one symbol are listed top to bottom as in the source and applied bottom-up, on a fresh Metadata() *)
+Definition props_of_decorators (calls : list (str * str)) : pdict := dict_update [] (rev calls).
+Definition links_of_decorators (calls : list link) : list link := rev calls.
+
+(* an entry of SUITE["links"] *)
+Inductive slink := LStr (url : str) | LPair (url : str) (name : option str).
+Definition normalize_link (l : slink) : link := match l with LStr u => (u, None) | LPair u n => (u, n) end.
+
+(* what a loaded suite carries *)
+Record meta := { md_tags : list str; md_props : pdict; md_links : list link }.
+Definition no_meta : meta := {| md_tags := []; md_props := []; md_links := [] |}.
+
 (* ---------------------------------------------------------------- source tree *)
 Inductive naming := NDefault | NTable (l : list (str * str)).
 
 Record tdecl := { t_attr : str; t_name : option str; t_desc : option str; t_cond : option bool; t_disabled : bool;
-                  t_tags : list str; t_params : option (list nat * naming) }.
+                  t_tags : list str; t_props : list (str * str); t_links : list link;
+                  t_params : option (list nat * naming) }.
 Record cdecl := { c_attr : str; c_name : option str; c_desc : option str; c_rank : option nat; c_cond : option bool;
-                  c_disabled : bool; c_tags : list str }.
+                  c_disabled : bool; c_tags : list str; c_props : list (str * str); c_links : list link }.
 (* [rank] fields are filled by the import pass (rank_item etc.); their initial content is irrelevant *)
 Inductive item := ITest (rank : nat) (d : tdecl) | IClass (rank : nat) (c : cdecl) (body : list item).
 
-Record sdict := { s_name : option str; s_desc : option str; s_rank : option nat; s_cond : option bool; s_tags : list str }.
+Record sdict := { s_name : option str; s_desc : option str; s_rank : option nat; s_cond : option bool; s_tags : list str;
+                  s_props : list (str * str); s_links : list slink }.
 Record mdecl := { m_file : str; m_suite : option sdict; m_rank : nat; m_items : list item }.
 Inductive dir := Dir (name : str) (mods : list mdecl) (subs : list dir).
 
@@ -156,13 +206,15 @@ Fixpoint rank_dir (fixed : bool) (n : nat) (d : dir) : dir * nat :=
   end.
 
 (* ---------------------------------------------------------------- loaded tree *)
-Record ltest := { lt_name : str; lt_desc : str; lt_rank : nat; lt_disabled : bool; lt_tags : list str; lt_param : option nat }.
-Inductive lsuite := LSuite (name desc : str) (rank : nat) (disabled hidden : bool) (tags : list str)
+Record ltest := { lt_name : str; lt_desc : str; lt_rank : nat; lt_disabled : bool; lt_tags : list str; lt_props : pdict;
+                  lt_links : list link; lt_param : option nat }.
+Inductive lsuite := LSuite (name desc : str) (rank : nat) (disabled hidden : bool) (md : meta)
                            (tests : list ltest) (subs : list lsuite).
 Definition ls_name (s : lsuite) := match s with LSuite n _ _ _ _ _ _ _ => n end.
 Definition ls_desc (s : lsuite) := match s with LSuite _ d _ _ _ _ _ _ => d end.
 Definition ls_rank (s : lsuite) := match s with LSuite _ _ r _ _ _ _ _ => r end.
 Definition ls_hidden (s : lsuite) := match s with LSuite _ _ _ _ h _ _ _ => h end.
+Definition ls_meta (s : lsuite) := match s with LSuite _ _ _ _ _ m _ _ => m end.
 Definition ls_tests (s : lsuite) := match s with LSuite _ _ _ _ _ _ t _ => t end.
 Definition ls_subs (s : lsuite) := match s with LSuite _ _ _ _ _ _ _ u => u end.
 
@@ -223,7 +275,8 @@ Definition expand_names (d : tdecl) : list (str * str * option nat) :=
 Definition expand_test (rank : nat) (d : tdecl) : list ltest :=
   if hidden_of (t_cond d) then []
   else map (fun x => {| lt_name := fst (fst x); lt_desc := snd (fst x); lt_rank := rank; lt_disabled := t_disabled d;
-                        lt_tags := t_tags d; lt_param := snd x |}) (expand_names d).
+                        lt_tags := t_tags d; lt_props := dict_update [] (props_of_decorators (t_props d));
+                        lt_links := links_of_decorators (t_links d); lt_param := snd x |}) (expand_names d).
 
 Definition expand_item (it : item) : list ltest :=
   match it with ITest r d => expand_test r d | IClass _ _ _ => [] end.
@@ -253,6 +306,10 @@ Fixpoint add_suites (acc : list lsuite) (l : list lsuite) : result (list lsuite)
 
 Definition class_name (c : cdecl) : str := or_str (c_name c) (c_attr c).
 Definition class_desc (c : cdecl) : str := or_str (c_desc c) (desc_of_name (class_name c)).
+(* suite.tags.extend(md.tags); suite.properties.update(md.properties); suite.links.extend(md.links) on a fresh Suite *)
+Definition class_meta (c : cdecl) : meta :=
+  {| md_tags := c_tags c; md_props := dict_update [] (props_of_decorators (c_props c));
+     md_links := links_of_decorators (c_links c) |}.
 
 Fixpoint mapM {A B} (f : A -> result B) (l : list A) : result (list B) :=
   match l with
@@ -277,7 +334,7 @@ Fixpoint load_class (it : item) : result (list lsuite) :=
       bind (add_tests [] (load_tests_of body)) (fun tests =>
       bind (sequence (map snd (symbols_k fst is_class children))) (fun loaded =>
       bind (add_suites [] (filter (fun s => negb (ls_hidden s)) loaded)) (fun subs =>
-      Ok [LSuite (class_name c) (class_desc c) rank (c_disabled c) (hidden_of (c_cond c)) (c_tags c) tests subs])))
+      Ok [LSuite (class_name c) (class_desc c) rank (c_disabled c) (hidden_of (c_cond c)) (class_meta c) tests subs])))
   end.
 
 Definition children_of (l : list item) : list (item * result (list lsuite)) := map (fun x => (x, load_class x)) l.
@@ -296,12 +353,18 @@ Definition mod_desc (m : mdecl) : str :=
   | Some s => match s_desc s with Some d => d | None => desc_of_name (mod_name m) end
   | None => desc_of_name (mod_name m)
   end.
-Definition mod_tags (m : mdecl) : list str := match m_suite m with Some s => s_tags s | None => [] end.
+(* SUITE.get("tags", []) / .get("properties", {}) / map(_normalize_link, .get("links", [])); no SUITE: suite_info = {} *)
+Definition mod_meta (m : mdecl) : meta :=
+  match m_suite m with
+  | Some s => {| md_tags := s_tags s; md_props := dict_update [] (dict_update [] (s_props s));
+                 md_links := map normalize_link (s_links s) |}
+  | None => no_meta
+  end.
 
 (* load_suite_from_file: the single-class collapse *)
 Definition load_module (m : mdecl) : result lsuite :=
   bind (load_body (m_items m)) (fun ts =>
-  let s := LSuite (mod_name m) (mod_desc m) (m_rank m) false (mod_hidden m) (mod_tags m) (fst ts) (snd ts) in
+  let s := LSuite (mod_name m) (mod_desc m) (m_rank m) false (mod_hidden m) (mod_meta m) (fst ts) (snd ts) in
   match m_suite m, fst ts, snd ts with
   | None, [], [c] => if str_eqb (ls_name c) (m_file m) then Ok c else Ok s
   | _, _, _ => Ok s
@@ -364,7 +427,7 @@ Section Merge.
               merge_subdirs (replace_mod (dir_name x) (with_subs s all) entries) r)
           | None =>
               bind (add_suites [] sub) (fun all =>
-              merge_subdirs (entries ++ [(None, LSuite (dir_name x) (desc_of_name (dir_name x)) 0 false false [] [] all)]) r)
+              merge_subdirs (entries ++ [(None, LSuite (dir_name x) (desc_of_name (dir_name x)) 0 false false no_meta [] all)]) r)
           end)
     end.
 End Merge.
@@ -388,12 +451,14 @@ Definition load (fixed : bool) (rank0 : nat) (root : dir) : result (list lsuite)
   load_dir fixed (fst (rank_dir fixed rank0 (norm_dir root))).
 
 (* ---------------------------------------------------------------- flattening the loaded tree *)
-(* (names of the enclosing suites, test) for every test of a loaded suite *)
-Fixpoint flat (prefix : list str) (s : lsuite) : list (list str * ltest) :=
+(* (the enclosing suites, outermost first: name and tags / properties / links of each; test) for every test of a loaded suite *)
+Definition pnode := (str * meta)%type.
+Definition ls_node (s : lsuite) : pnode := (ls_name s, ls_meta s).
+Fixpoint flat (prefix : list pnode) (s : lsuite) : list (list pnode * ltest) :=
   match s with
-  | LSuite name _ _ _ _ _ tests subs =>
-      map (fun t => (prefix ++ [name], t)) tests ++
-      (fix go (l : list lsuite) : list (list str * ltest) :=
-         match l with [] => [] | x :: r => flat (prefix ++ [name]) x ++ go r end) subs
+  | LSuite name _ _ _ _ md tests subs =>
+      map (fun t => (prefix ++ [(name, md)], t)) tests ++
+      (fix go (l : list lsuite) : list (list pnode * ltest) :=
+         match l with [] => [] | x :: r => flat (prefix ++ [(name, md)]) x ++ go r end) subs
   end.
-Definition flat_all (prefix : list str) (l : list lsuite) : list (list str * ltest) := flat_map (flat prefix) l.
+Definition flat_all (prefix : list pnode) (l : list lsuite) : list (list pnode * ltest) := flat_map (flat prefix) l.
